@@ -43,7 +43,6 @@ BUILTIN = {
     'shp_float_truncated': {'id': 'D38', 'what': 'to_shapefile declares numeric fields with decimal=0: a float property 1.5 comes back as the int 1'},
     'shp_id_added': {'id': 'D39', 'what': "to_shapefile adds an 'ID' field: every shape read back has an extra property ID = its index in the layer"},
     'shp_missing_key_filled': {'id': 'D40', 'what': "a property key that only some members of a shapefile layer have comes back on the others as '' (text) or None (number, bool)"},
-    'gpd_multipoint_rejected': {'id': 'D41', 'what': 'from_geopandas raises ValueError for any frame with a MultiGeoPoint: Shapely 2 writes MULTIPOINT ((0 0), (1 1)), which MultiGeoPoint.from_wkt rejects'},
     'gpd_missing_key_nan': {'id': 'D42', 'what': 'a property key that only some members have comes back from to_geopandas/from_geopandas as nan / None on the others (and ints of that column as floats)'},
     'kml_subfolder_injected': {'id': 'D43', 'what': "from_fastkml_folder adds 'sub_folder_0' = folder name to the properties, but only of shapes that already have a property"},
     'shp_single_member_multi': {'id': 'D44', 'what': 'a MultiGeoLineString / MultiGeoPolygon with one member comes back from a shapefile as GeoLineString / GeoPolygon'},
@@ -525,7 +524,7 @@ def main():
     pt = lambda x, **kw: dict({'kind': 'point', 'c': (x, 2.0, None), 'dt': None, 'props': {}}, **kw)     # noqa: E731
     colls.append({'track': False, 'z': False, 'naive': False, 'specs': [
         pt(1.0, props={'f': 1.5, 's': 'x', 'zero': 0}), pt(2.0),                                            # D38 D39 D40 D42 D43 D45 D46
-        {'kind': 'mpoint', 'cs': [(0.0, 0.0, None), (1.0, 1.0, None)], 'dt': None, 'props': {}},              # D41
+        {'kind': 'mpoint', 'cs': [(0.0, 0.0, None), (1.0, 1.0, None)], 'dt': None, 'props': {}},              # D41 (repaired): regression
         {'kind': 'mline', 'ls': [[(0.0, 0.0, None), (1.0, 1.0, None)]], 'dt': None, 'props': {}},              # D44
         {'kind': 'mpoly', 'ps': [{'o': sq}], 'dt': None, 'props': {}}]})
     colls.append({'track': False, 'z': False, 'naive': False, 'specs': [pt(1.0, props={'s': 'x', 'e': ''}), pt(2.0, props={'s': 'y'})]})   # D43, D46
@@ -633,7 +632,7 @@ def main():
             recs = df.to_dict('records')
             whole = guarded(lambda: cls.from_geopandas(df))
             if whole[0] != 'Ok':
-                flagged.append((m, 'geopandas', 'gpd_multipoint_rejected' if has_mp and whole[1] == 'ValueError' else None,
+                flagged.append((m, 'geopandas', None,      # (D41, the nested MULTIPOINT text of Shapely 2, is repaired: a refusal is a violation again)
                                 f'from_geopandas raised {whole[1]}'))
             rows = []
             for i, (o, rec) in enumerate(zip(objs, recs)):
@@ -738,7 +737,7 @@ def main():
               assumptions=['CONTRACT pyshp: what to_pyshp hands over is what is stored; __geo_interface__ = ESRI rule read sequentially (esri_gi); '
                            'shape.z in written order; DBF: names cut to 10, C/N(decimal 0)/L cells as dbf_cell_ref — checked on every case',
                            'CONTRACT pandas/shapely: cells as pd_cell_ref for the inferred column kind; WKT body and keyword as the '
-                           "library's to_wkt (MultiPoint excepted: D41) — checked on every case",
+                           "library's to_wkt (a MultiPoint comes back in the nested OGC form, which the reader accepts since repair D41) — checked on every case",
                            'CONTRACT fastkml/pygeoif: geo interface keeps type and coordinates, times and extended data unchanged — checked on every case',
                            'coordinates are multiples of 1e-7 degree in canonical range; polygons are valid (holes inside their shell, parts disjoint); '
                            'non-zero ring areas; Z never 0 (D14) and uniform within a collection; field names <= 10 characters, text <= 50 '
